@@ -633,6 +633,31 @@ func scaleText(family string, n int) string {
 			fmt.Fprintf(&sb, "for X\nQ%d equ 1\nrof\nU%d equ 1\n", i, i)
 		}
 		sb.WriteString("rof\ndat 0\n")
+	case "nested_counts_next_to_a_refused_symbol": // n/80 nested blocks, each counted by the end of a chain of n/8 names plus a symbol of its own that is refused for its length
+		m, k := n/8, n/80
+		sb.WriteString("B equ 1" + strings.Repeat("+1", 1050) + "\nZ0 equ 1\n")
+		for i := 1; i <= m; i++ {
+			fmt.Fprintf(&sb, "Z%d equ Z%d\n", i, i-1)
+		}
+		for i := 0; i < k; i++ {
+			fmt.Fprintf(&sb, "A%d equ B+B\n", i)
+		}
+		sb.WriteString("x for 1\n")
+		for i := 0; i < k; i++ {
+			fmt.Fprintf(&sb, "for Z%d+A%d\nq%d equ 1\nrof\n", m, i, i)
+		}
+		sb.WriteString("rof\ndat 0\n")
+	case "count_naming_a_refused_chain_many_times": // one count that names, n/8 times, the end of a chain of n/8 names that starts at an over-long value
+		m := n / 8
+		sb.WriteString("BIG equ 1" + strings.Repeat("+1", 2050) + "\nC0 equ BIG\n")
+		for i := 1; i <= m; i++ {
+			fmt.Fprintf(&sb, "C%d equ C%d\n", i, i-1)
+		}
+		fmt.Fprintf(&sb, "for C%d", m)
+		for i := 1; i < m; i++ {
+			fmt.Fprintf(&sb, "+C%d", m)
+		}
+		sb.WriteString("\ndat 0\nrof\n")
 	case "nested_block_behind_end": // a block of 1000 copies of n/8 EQU lines behind an END line inside a block
 		sb.WriteString("for 1\ndat 0\nend\nfor 1000\n")
 		for i := 0; i < n/8; i++ {
@@ -660,7 +685,7 @@ func scaleText(family string, n int) string {
 }
 
 var scaleFamilies = []string{"for_blocks", "for_blocks_equ", "equ_chain", "equ_fanout", "equ_many", "labels", "lines", "comments", "for_flat", "one_label_many_names",
-	"strategy_lines", "name_lines", "assert_lines", "nested_for", "gap_labels", "equ_use", "long_exprs", "end_expr", "equ_chain_uses", "colon_labels", "for_counter_labels", "for_blocks_chain", "nested_depth", "wide_substitution", "wide_substitution_count", "silent_labelled_blocks", "deep_nest_with_equ", "nested_counts_through_a_cycle", "nested_counts_through_an_unknown", "nested_counts_along_a_chain_to_a_label", "nested_counts_along_a_chain_to_a_cycle", "nested_counts_along_a_chain_to_a_long_value", "nested_block_behind_end", "nested_counts_through_a_chain_behind_a_long_value", "nested_counts_while_the_missing_name_moves", "many_names_for_one_long_value", "many_aliases_of_a_long_value", "nested_counts_over_a_sum_of_missing_names"}
+	"strategy_lines", "name_lines", "assert_lines", "nested_for", "gap_labels", "equ_use", "long_exprs", "end_expr", "equ_chain_uses", "colon_labels", "for_counter_labels", "for_blocks_chain", "nested_depth", "wide_substitution", "wide_substitution_count", "silent_labelled_blocks", "deep_nest_with_equ", "nested_counts_through_a_cycle", "nested_counts_through_an_unknown", "nested_counts_along_a_chain_to_a_label", "nested_counts_along_a_chain_to_a_cycle", "nested_counts_along_a_chain_to_a_long_value", "nested_block_behind_end", "nested_counts_through_a_chain_behind_a_long_value", "nested_counts_while_the_missing_name_moves", "many_names_for_one_long_value", "many_aliases_of_a_long_value", "nested_counts_over_a_sum_of_missing_names", "nested_counts_next_to_a_refused_symbol", "count_naming_a_refused_chain_many_times"}
 
 var scaleSizes = []int{12000, 16000, 14000}
 
@@ -730,7 +755,7 @@ func judgeScaleCase(t testing.TB) func(c scaleCase, rec *hx.Rec) string {
 	}
 }
 
-const c05ScalingRule = "time proportional to input size: every structured family (n/40 sequential FOR blocks among plain lines, the same with counts that go through an EQU chain of depth n/8, n/80 blocks inside one another, n/3 labelled blocks that emit nothing, n/8 blocks inside one another around an EQU line, n/8 nested blocks counted through an EQU cycle or through a chain ending in an undefined name, n/8 nested blocks counted by the successive members of a chain that ends in a label, a cycle or an over-long value, a large block behind an END line inside a block, n/8 nested blocks counted through a chain behind an over-long value, the same while the undefined name at the end of the chain keeps being defined as another undefined name, n/8 names for one over-long value, n/8 nested blocks counted by a sum of n/8 undefined names that are defined one by one, n/8 aliases of one long value, one operand or FOR count naming a 4095-token EQU n/8 times, the same after n/4 unrelated EQU lines, labelled blocks whose labels are used, three nested blocks with n copies, one flat FOR of n, EQU chain of depth n, one EQU referring to n symbols, n independent EQUs, one EQU used by n lines, a 20-deep EQU chain used by n lines, n labelled lines (plain and colon form), n label names on one instruction, n labels each followed by a comment line, n plain lines, long sums on every tenth line, END with a label after n lines, n comment lines, n ;strategy lines, n ;name/;author lines, n ;assert lines) is assembled at n and at 5n (n in {12000, 14000, 16000}: the quick tier takes one size per family chosen by the seed, the thorough tier all three) in the isolated worker under a valid configuration (core 2^34, length limit 2^30); it is a violation when the larger run takes more than 300 ms and more than 12 times the smaller one (linear: about 5, quadratic: 25) and still does after re-measuring both (best of three). Every case is non-trivial; distinct by (family, n)."
+const c05ScalingRule = "time proportional to input size: every structured family (n/40 sequential FOR blocks among plain lines, the same with counts that go through an EQU chain of depth n/8, n/80 blocks inside one another, n/3 labelled blocks that emit nothing, n/8 blocks inside one another around an EQU line, n/8 nested blocks counted through an EQU cycle or through a chain ending in an undefined name, n/8 nested blocks counted by the successive members of a chain that ends in a label, a cycle or an over-long value, a large block behind an END line inside a block, n/8 nested blocks counted through a chain behind an over-long value, the same while the undefined name at the end of the chain keeps being defined as another undefined name, n/8 names for one over-long value, n/8 nested blocks counted by a sum of n/8 undefined names that are defined one by one, nested counts that name a long chain next to a refused symbol, one count naming the end of a refused chain n/8 times, n/8 aliases of one long value, one operand or FOR count naming a 4095-token EQU n/8 times, the same after n/4 unrelated EQU lines, labelled blocks whose labels are used, three nested blocks with n copies, one flat FOR of n, EQU chain of depth n, one EQU referring to n symbols, n independent EQUs, one EQU used by n lines, a 20-deep EQU chain used by n lines, n labelled lines (plain and colon form), n label names on one instruction, n labels each followed by a comment line, n plain lines, long sums on every tenth line, END with a label after n lines, n comment lines, n ;strategy lines, n ;name/;author lines, n ;assert lines) is assembled at n and at 5n (n in {12000, 14000, 16000}: the quick tier takes one size per family chosen by the seed, the thorough tier all three) in the isolated worker under a valid configuration (core 2^34, length limit 2^30); it is a violation when the larger run takes more than 300 ms and more than 12 times the smaller one (linear: about 5, quadratic: 25) and still does after re-measuring both (best of three). Every case is non-trivial; distinct by (family, n)."
 
 func TestC05_Scaling(t *testing.T) {
 	if hx.Shard() != 0 {
